@@ -21,7 +21,7 @@ RULE = ("job shop: seeded job lists (1-6 jobs x 1-5 ops; machine indices with ga
         "distinct = distinct input")
 ASSUMPTIONS = [
     "job-shop durations are non-negative ints, machine indices non-negative ints, every job has >=1 operation (documented ValueError otherwise)",
-    "max_iter >= 1 (with max_iter=0 both solvers reference the unbound loop variable; excluded as in DESIGN.md C19)",
+    "max_iter >= 0 (a local search of length zero returns the dispatched schedule / the constructed routes)",
     "customer ids are 1..n in list order (solve_vrptw indexes its customer list by id; 0 is the depot), as in the documented example",
     "integer coordinates / demands / times: float error is only that of hypot and a few additions (tolerance 1e-9 relative on times, 1e-11 of the term magnitudes on the objective)",
     "fleets have >=1 vehicle; regret k >= 1; removal degree in (0,1]; n_routes >= 1",
@@ -109,7 +109,7 @@ def _gen_js(stratum, rng):
     if rng.random() < 0.15:
         rule = rng.choice([rule.upper(), rule.capitalize()])
     case = {"kind": "js", "jobs": jobs, "rule": rule, "local_search": rng.random() < 0.8,
-            "max_iter": rng.choice([1, 2, 5, 20, 60, 200]), "seed": rng.randint(0, 10**6),
+            "max_iter": rng.choice([1, 2, 5, 20, 60, 200, 1, 2, 5, 20, 60, 200, 0]), "seed": rng.randint(0, 10**6),
             "stop_at": None, "interval": 0}
     if rng.random() < 0.15:
         case["interval"] = rng.randint(1, 3)
@@ -147,7 +147,7 @@ def _gen_vrp(stratum, rng):
     n = rng.randint(2, 10)
     nv = rng.randint(1, 4)
     case = {"kind": "vrp", "as_tuples": False, "vehicles": nv, "capacity": INF, "depot": (0, 0), "weights": {},
-            "max_iter": rng.choice([1, 5, 20, 20, 60, 60, 150, 300]), "max_no_improve": 500,
+            "max_iter": rng.choice([1, 5, 20, 20, 60, 60, 150, 300, 1, 5, 20, 20, 60, 60, 150, 300, 0]), "max_no_improve": 500,
             "seed": rng.randint(0, 10**6), "stop_at": None, "interval": 0}
     if stratum == "vrp-single":
         case["customers"] = _customers(rng, n, 0.0, ["inf", "loose", "loose", "tight"], [0, 1, 2, 5], [0, 0, 1, 3], [1])
